@@ -4,7 +4,7 @@ from __future__ import annotations
 import ast
 from typing import Dict, List, Optional, Set, Tuple
 
-from ..core import AnalysisError, ClassInfo, FuncInfo, Index, call_name, dotted, is_self_attr, walk_local
+from ..core import AnalysisError, ClassInfo, FuncInfo, Index, call_name, dotted, is_self_attr, norm, walk_local
 
 CHANGE_BASE = "rope.base.change.Change"
 
@@ -103,3 +103,112 @@ def mutated_exprs(stmt: ast.AST) -> List[ast.expr]:
 
 def explicit_raises(fn: ast.AST) -> List[ast.Raise]:
     return [n for n in walk_local(fn) if isinstance(n, ast.Raise)]
+
+
+def file_list_filter_rule(ctx, res, rule: str) -> None:
+    """Ownership of the cached file listing (shared by C09 and C13): every element that enters the cached collection of
+    the project's file-list cacher is dominated by a negative `is_ignored(<that element>)` test.  The listing is what
+    every project-wide refactoring iterates, so an unfiltered insertion makes rope edit an ignored module, and makes a
+    long-lived project list files a fresh one does not."""
+    from ..cfg import CFG
+    from ..core import AnalysisError, call_name, calls_in
+
+    idx = ctx.idx
+    cls = idx.need_class("rope.base.project._FileListCacher")
+    init = cls.methods.get("__init__")
+    if init is None or "get_files" not in cls.methods:
+        raise AnalysisError("anchor=_FileListCacher: __init__/get_files missing")
+    cache_attrs = set()
+    for n in walk_local(init.node):
+        if isinstance(n, ast.Assign) and isinstance(n.value, ast.Constant) and n.value.value is None:
+            cache_attrs |= {t.attr for t in n.targets if is_self_attr(t)}
+    if not cache_attrs:
+        raise AnalysisError("anchor=_FileListCacher: no cache attribute initialised to None")
+    ADDERS = {"add", "append", "insert", "update", "extend", "appendleft"}
+
+    def is_empty(v: ast.AST) -> bool:
+        return (isinstance(v, ast.Constant) and v.value is None) or \
+            (isinstance(v, ast.Call) and call_name(v) in ("set", "list", "dict", "frozenset") and not v.args) or \
+            (isinstance(v, (ast.List, ast.Set, ast.Tuple)) and not v.elts)
+
+    def filtered(elem: ast.AST, tests) -> bool:
+        for t, pol in tests:
+            if isinstance(t, ast.Call) and call_name(t) == "is_ignored" and t.args and norm(t.args[0]) == norm(elem) and pol is False:
+                return True
+        return False
+
+    n = 0
+    for mname, m in sorted(cls.methods.items()):
+        cfg = CFG(m.node)
+        alias = {}
+        k = 0
+        for x in walk_local(m.node):
+            if isinstance(x, ast.Assign) and len(x.targets) == 1 and isinstance(x.targets[0], ast.Name) \
+                    and is_self_attr(x.value) and x.value.attr in cache_attrs:
+                alias[x.targets[0].id] = x.value.attr
+        for node in cfg.nodes:
+            if node.kind not in ("stmt", "test") or node.ast is None:
+                continue
+            a = node.ast
+            sites = []  # (element expr or None, description)
+            for c in [x for x in ([a] if isinstance(a, ast.Call) else []) + calls_in(a)]:
+                if isinstance(c.func, ast.Attribute) and c.func.attr in ADDERS:
+                    r = c.func.value
+                    if (is_self_attr(r) and r.attr in cache_attrs) or (isinstance(r, ast.Name) and r.id in alias):
+                        elem = c.args[-1] if c.args and c.func.attr in ("add", "append", "insert", "appendleft") else None
+                        sites.append((elem, c))
+            if isinstance(a, (ast.Assign, ast.AugAssign)):
+                for t in (a.targets if isinstance(a, ast.Assign) else [a.target]):
+                    if is_self_attr(t) and t.attr in cache_attrs and not is_empty(a.value):
+                        sites.append((None, a.value))
+            for elem, site in sites:
+                n += 1
+                k += 1
+                key = f"{cls.name}.{mname}|insert#{k}"
+                where = f"{m.unit.rel}:{getattr(site, 'lineno', node.lineno)}"
+                if elem is not None:
+                    ok = filtered(elem, cfg.guards(node.id))
+                    res.add(rule, key, ok, where,
+                            f"{ast.unparse(elem)} enters the cached listing only after `not is_ignored({ast.unparse(elem)})`" if ok else
+                            f"{cls.name}.{mname} inserts {ast.unparse(elem)} into the cached file listing without testing is_ignored({ast.unparse(elem)}): "
+                            "an ignored resource (e.g. a module moved or renamed into an ignored location) stays in get_files()/get_python_files(), "
+                            "so later project-wide refactorings list and rewrite it, and the listing differs from a freshly opened project's",
+                            function=m.qualname)
+                elif isinstance(site, (ast.SetComp, ast.ListComp, ast.GeneratorExp)) or (
+                        isinstance(site, ast.Call) and site.args and isinstance(site.args[0], (ast.SetComp, ast.ListComp, ast.GeneratorExp))):
+                    comp = site if not isinstance(site, ast.Call) else site.args[0]
+                    tests = []
+                    for g in comp.generators:
+                        for i in g.ifs:
+                            if isinstance(i, ast.UnaryOp) and isinstance(i.op, ast.Not):
+                                tests.append((i.operand, False))
+                    ok = filtered(comp.elt, tests)
+                    res.add(rule, key, ok, where, "comprehension filters on is_ignored" if ok else
+                            f"{cls.name}.{mname} rebuilds the cached file listing without an is_ignored filter on its elements", function=m.qualname)
+                else:
+                    res.undecided(rule, key, where, "bulk insertion into the cached listing: element filter not recognised")
+    res.floor(rule, "insertions into the cached file listing", n, 1)
+
+
+def hard_keyword_rule(ctx, res, rule: str) -> None:
+    """Shared by C14 and C20: the word finder has no grammar context, so the only words it may refuse to treat as (part
+    of) a primary are HARD keywords.  Soft keywords (match, case, type, _) are legal identifiers; a reference to the
+    soft-keyword oracle anywhere in the word finder cuts identifiers spelled like them out of their attribute chain."""
+    idx = ctx.idx
+    unit = idx.need_unit("rope.base.worder")
+    hard = soft = 0
+    for f in sorted((f for f in idx.functions.values() if f.unit is unit), key=lambda f: f.qualname):
+        refs = [x for x in ast.walk(f.node) if isinstance(x, ast.Attribute) and isinstance(x.value, ast.Name) and x.value.id == "keyword"]
+        refs += [x for x in ast.walk(f.node) if isinstance(x, ast.Name) and x.id in ("issoftkeyword", "softkwlist", "iskeyword", "kwlist")]
+        for x in refs:
+            nm = x.attr if isinstance(x, ast.Attribute) else x.id
+            if nm in ("iskeyword", "kwlist"):
+                hard += 1
+                res.ok(rule, f"{f.qualname.split('.', 2)[-1]}|{nm}", f"{f.unit.rel}:{x.lineno}", "keyword test uses the hard-keyword oracle")
+            elif nm in ("issoftkeyword", "softkwlist"):
+                soft += 1
+                res.fail(rule, f"{f.qualname.split('.', 2)[-1]}|{nm}", f"{f.unit.rel}:{x.lineno}",
+                         f"{f.name} consults keyword.{nm}: identifiers spelled match / case / type / _ are treated as keywords by the word finder, so "
+                         "`match(p).group` is cut to `(p).group`, go-to-definition and completion on such names answer nothing or raise",
+                         function=f.qualname)
+    res.floor(rule, "keyword-oracle references in the word finder", hard + soft, 1)
